@@ -45,7 +45,7 @@ func fail(t interface{ Fatalf(string, ...interface{}) }, name string, c interfac
 // ------------------------------------------------------------------ (b) proxy accounting
 
 type POp struct {
-	K string `json:"k"` // wh | w | rf | flush
+	K string `json:"k"` // wh | w | rf | flush | hijack (refused by the underlying writer) | closenotify | header
 	N int    `json:"n"` // status code or byte count
 }
 
@@ -130,6 +130,18 @@ func runProxy(c *PCase) (string, bool) {
 				if fl, ok := w.(http.Flusher); ok {
 					fl.Flush()
 				}
+			case "hijack":
+				// the underlying writer refuses (an HTTP/2 connection, a recorder): the handler carries on
+				// with an ordinary response, which is what gets reported
+				if hj, ok := w.(http.Hijacker); ok {
+					hj.Hijack()
+				}
+			case "closenotify":
+				if cn, ok := w.(http.CloseNotifier); ok {
+					cn.CloseNotify()
+				}
+			case "header":
+				w.Header().Set("X-Op", "v")
 			}
 		}
 	}))
@@ -182,7 +194,7 @@ func TestProxyExhaustive(t *testing.T) {
 	if ev.Thorough() {
 		maxLen = 5
 	}
-	alpha := []POp{{"wh", 200}, {"wh", 404}, {"wh", 600}, {"wh", 101}, {"w", 3}, {"w", 0}, {"rf", 5}, {"flush", 0}}
+	alpha := []POp{{"wh", 200}, {"wh", 404}, {"wh", 600}, {"wh", 101}, {"w", 3}, {"w", 0}, {"rf", 5}, {"flush", 0}, {"hijack", 0}}
 	var n, nt int64
 	for _, caps := range []string{"basic", "flusher", "full"} {
 		for _, acc := range []int{-1, 0, 4, 7} {
@@ -234,7 +246,7 @@ func TestProxyRapid(t *testing.T) {
 		c := &PCase{Caps: rapid.SampledFrom([]string{"basic", "flusher", "full"}).Draw(rt, "caps"), Accept: rapid.SampledFrom([]int{-1, -1, 0, 1, 10, 100, 5000}).Draw(rt, "accept")}
 		n := rapid.IntRange(0, 20).Draw(rt, "n")
 		for i := 0; i < n; i++ {
-			k := rapid.SampledFrom([]string{"wh", "w", "w", "rf", "flush"}).Draw(rt, "k")
+			k := rapid.SampledFrom([]string{"wh", "w", "w", "rf", "flush", "hijack", "closenotify", "header"}).Draw(rt, "k")
 
 			op := POp{K: k}
 			switch k {
